@@ -248,15 +248,45 @@ def twin_case(r):
         lines = [' '.join('@import "twin%d.djinni"' % j for j in range(1, k + 1))] if fi == 0 else ['# twin file %d' % fi]
         for tag, body, at in bodies:
             exp.append((tag, fname, {'_line': len(lines) + at + 1}))
-            lines += [ln.format(p=pfx + tag.replace('-', '_')[:6]) for ln in body]
+            lines += [ln.format(p='%s%d%s' % (pfx, bodies.index((tag, body, at)), tag.replace('-', '_')[:5])) for ln in body]
         files[fname] = '\n'.join(lines) + '\n'
     return files, exp
+
+
+SHADOW_VARIANTS = [
+    # (outer declaration in the library, LEGAL use of it inside the namespace in the library, closer declaration of ANOTHER kind in the importer,
+    #  line that breaks a rule with the closer one, rule tag)
+    ('thing = record { a: i32; }', 'user = record { t: thing; }', 'thing = interface +cpp { m(); }', 'holder = record { bad: thing; }', 'interface-field'),
+    ('thing = record { a: i32; }', 'user = record { t: thing; }', 'thing = error { oops; }', 'holder = record { bad: thing; }', 'error-field'),
+    ('thing = error { oops; }', 'user = interface +cpp { m() throws thing; }', 'thing = record { a: i32; }', 'svc = interface +cpp { bad() throws thing; }', 'throws-non-error'),
+    ('thing = record { a: i32; }', 'user = record { t: thing; }', 'thing = error { oops; }', 'svc = interface +cpp { bad(e: thing); }', 'error-param'),
+    ('thing = enum { a; }', 'user = record { t: thing; }', 'thing = error { oops; }', 'svc = interface +cpp { bad() -> thing; }', 'error-return'),
+]
+
+
+def shadow_case(r):
+    """An imported file and the importing file contribute to ONE namespace; the imported file looks a name up from inside that namespace and finds
+    the outer declaration; the importer then declares a closer type of another kind with that name and breaks a rule with it.  The rule
+    checks must judge the closer declaration."""
+    outer, legal_use, closer, bad, tag = r.choice(SHADOW_VARIANTS)
+    ns = r.choice(['app', 'app.core', 'v1'])
+    lib = '%s\nnamespace %s {\n    %s\n}\n' % (outer, ns, legal_use)
+    root_lines = ['@import "lib.djinni"', 'namespace %s {' % ns, '    ' + closer, '    ' + bad, '}']
+    if r.random() < 0.5:
+        root_lines.insert(2, '    ok_rec = record { n: i32; }')
+    files = {'root.djinni': '\n'.join(root_lines) + '\n', 'lib.djinni': lib}
+    line = next(i for i, l in enumerate(root_lines) if l.strip() == bad) + 1
+    return files, [(tag, 'root.djinni', {'_line': line})]
 
 
 def run(ctx):
     r = random.Random(ctx.rng.random())
     n = ctx.n(80, 700)
     cases, meta = [], []
+    for i in range(ctx.n(8, 60)):
+        files, exp = shadow_case(r)
+        cases.append({'files': files, 'root': 'root.djinni', 'options': {'generate': dict(FULL)}})
+        meta.append(({'root': 'root.djinni'}, exp))
     for i in range(ctx.n(12, 80)):
         files, exp = twin_case(r)
         cases.append({'files': files, 'root': 'root.djinni', 'options': {'generate': dict(FULL)}})
